@@ -29,13 +29,23 @@ def build_case(pts, soma, bf, k, ex, sort, dtype, api, unit=1.0):
             "dtype": dtype, "api": api}
 
 
+def lib_vid(c):
+    return c.get("vid", c["cid"])
+
+
 def execute(c):
     from swcgeom.transforms import PointsToCuntzMST, PointsToMST
     dt = {"f32": np.float32, "f64": np.float64, "i64": np.int64, "i32": np.int32}[c["dtype"]]
     pts = np.array(c["pts"], dtype=dt)
     soma = None if not c["soma"] else np.array(c["soma"], dtype=(np.float64 if np.dtype(dt).kind == "i" else dt))     # a soma need not sit on a voxel centre
     if c["api"] == "mst":
-        tf = PointsToMST(furcations=c["k"], exclude_soma=c["ex"], sort=c["sort"])
+        if lib_vid(c) % 4 == 1:
+            import warnings as _w
+            with _w.catch_warnings():
+                _w.simplefilter("ignore")
+                tf = PointsToMST(k_furcations=c["k"], exclude_soma=c["ex"], sort=c["sort"])      # the older spelling of the same option (still public)
+        else:
+            tf = PointsToMST(furcations=c["k"], exclude_soma=c["ex"], sort=c["sort"])
     else:
         tf = PointsToCuntzMST(bf=c["p"] / c["q"], furcations=c["k"], exclude_soma=c["ex"], sort=c["sort"])
     for prev in c.get("prev", []):         # the same transform object has been applied to other (smaller) clouds before: no call may leave state behind
